@@ -90,6 +90,16 @@ func checkCmd(args []string) int {
 		}
 		cr.CheckEmittedSafety(entries)
 		return cr.Finish("proof", checkerCmd, commonTrusted, "one obligation per instruction that can panic and per responder clause (exactly one response) in every server-side function of every corpus package; all requests and values")
+	case "C20":
+		entries := vc.FixtureCorpus(*repo, "get_params", "router", "security_jwt_apikey_query", "response_header", "response_component", "json", "request_body", "middleware", "cors_default", "octet_stream")
+		if *tier != "quick" {
+			entries = vc.FixtureCorpus(*repo)
+			entries = append(entries, vc.RouteCorpus(corpusDir, "quick", seed)...)
+			entries = append(entries, vc.SecurityCorpus(corpusDir, "quick")...)
+			entries = append(entries, vc.CorsCorpus(corpusDir, "quick")...)
+		}
+		cr.CheckIsolation(entries)
+		return cr.Finish("proof", "goagvc: frame obligations over go/ssa, discharged by provenance typing of the written address (no solver involved)", commonTrusted, "one frame obligation per store / map update / delete / copy in every function (server and client side) of every corpus package: the written region must be private to the call or handed in by the caller; schedules are not explored")
 	case "C15":
 		cr.CheckGeneratorSafety(os.Getenv("GOAGVC_RECORD") != "")
 		return cr.Finish("proof", checkerCmd, commonTrusted, "one obligation per instruction that can panic (nil dereference, nil map write, index/slice bounds, failed type assertion, explicit panic, nil func/interface call) and per thin-contract clause (requires at call sites, ensures at returns) in every function of goag, generator, specification and cmd/goag; all inputs; obligations listed in baseline/C15-unproved.json are not claimed")
